@@ -23,7 +23,7 @@ CONFIG = dict(
              'also malformed ones); mm-decoy = a .mailmap in every commit but the last (ignored); mmx-overlap = a key that is also a canonical '
              'e-mail / name of another entry or two keys differing by case (outside mm_domb: finding mailmap-overlap); mmp-malformed = junk '
              'lines ("a>", "-->", "N > <c@x>", trailing text, empty brackets, ...) and randomly cut / spliced / delimiter-injected lines '
-             '(ParseMailmap panics on some: finding mailmap-parse-panic). Scale kinds (judged per commit with hash tables in the driver + full '
+             '(ParseMailmap panicked on some before the repair 199beb1; they are skipped now). Scale kinds (judged per commit with hash tables in the driver + full '
              'comparison with the model; no quadratic oracle): scale-few = 10^3, 10^4, 10^5 (thorough 10^6) commits over p names x q e-mails, p, q '
              'in 15/16/17, 255/257, 1023/1025, both modes; scale-chain = one developer with 255 / 513 (thorough 1000, 2049, 10^4, 10^5) names and '
              'e-mails, ascending / descending / shuffled; scale-many = 255, 256, 257, 1000 developers (thorough 4095..4097 and, judged without the '
@@ -48,7 +48,7 @@ CONFIG = dict(
             'e-mail case-insensitively" is judged with Go\'s own notion; only C16_same_name_and_email and C16_lower_ascii_keeps_bars_out are '
             'about ASCII lower-casing specifically',
             'the .mailmap branch is modelled on the PARSED table (generate_people_dict_mm); the table given to the model is the one '
-            'identity.ParseMailmap returned in the harness; ParseMailmap itself is modelled (parse_mailmap, no theorem) and compared with it, '
+            'identity.ParseMailmap returned in the harness; ParseMailmap itself is modelled (parse_mailmap, proved total) and compared with it, '
             'with strings.TrimSpace restricted to ASCII white space (generated texts contain no U+0085, U+00A0 or other Unicode spaces); the '
             'description theorem with a mailmap assumes mm_domb (lower-cased keys pairwise different, not empty, and a key that is also a '
             'canonical e-mail / name belongs to an entry with the same canonical pair); outside it the clause is false '
@@ -66,7 +66,7 @@ CONFIG = dict(
         ],
         trusted_base=[
             'hand-written Gallina models coq/theories/Plumbing/Identity.v (GeneratePeopleDict both modes, Consume), IdentityMailmap.v (the '
-            '.mailmap loop of GeneratePeopleDict on the parsed table, ParseMailmap incl. its two panicking slices) and IdentityMerge.v '
+            '.mailmap loop of GeneratePeopleDict on the parsed table, ParseMailmap with its two "skip the malformed line" exits) and IdentityMerge.v '
             '(MergeReversedDictsIdentities as written incl. the one-index-per-part vocabulary, MergeReversedDictsLiteral) of '
             'internal/plumbing/identity/identity.go, tied to the code by the replay of every harness case (dictionaries, descriptions, '
             'author indices, index maps and merged lists compared exactly)',
@@ -95,8 +95,8 @@ CONFIG = dict(
         level_note='Proved about the models, tied to the Go code by correspondence only. The merge half of the property as literally stated ("all pairs '
                    'of identity lists with arbitrary overlaps") is refuted for the current code (F7, known finding; candidate fix in '
                    'docs/C16-F7-candidate-fix.patch); it is proved on the sub-domain that GeneratePeopleDict guarantees. Modelled, not verified: Go '
-                   'string primitives, sort, maps, go-git. Not modelled: LoadPeopleDict, Configure. ParseMailmap is modelled and replayed without a theorem; it panics '
-                   'on a line that ends in ">" and has no "<" before it (finding mailmap-parse-panic). With a mailmap "attached to developer d" = the '
+                   'string primitives, sort, maps, go-git. Not modelled: LoadPeopleDict, Configure. ParseMailmap is modelled as repaired by 199beb1 and replayed; proved: it returns for every text '
+                   '(C16_parse_mailmap_returns); before the repair it panicked on "a>" (C16_parse_mailmap_before_fix_refuted). With a mailmap "attached to developer d" = the '
                    'keys of PeopleDict that map to d (lower-cased commit names / e-mails, mailmap keys, canonical names / e-mails of the entries that '
                    'created a developer); which of the two lists a key is printed in is fixed only without a mailmap. MergeReversedDictsLiteral is '
                    'modelled and replayed but has no theorem (it panics / mis-indexes when rd1 contains a duplicate string; observed, outside the '
